@@ -29,7 +29,7 @@ COMPONENTS = {"real": ["smpl_extract.filters.fir / iir (the compiled extension m
               "stub": []}
 ASSUMPTIONS = ["the compiled extensions cannot be rebuilt here (no Cython): the verdict concerns the .so files present, see coverage.build"]
 EXPECTED_PROBES = ["fir", "iir", "cdxtract", "chicksys_fir", "chicksys_iir_preset", "chicksys_iir_custom", "block_len_1",
-                   "block_shorter_than_memory", "extreme_signal", "saturated", "reset_checked", "many_blocks"]
+                   "block_shorter_than_memory", "extreme_signal", "silence_in_signal", "saturated", "reset_checked", "many_blocks"]
 SHRINK = {"max_attempts": 400, "max_seconds": 30.0}
 ENUM_FILTERS = [
     {"kind": "fir", "taps": [0.5, 0.25, -0.125], "m0": 0}, {"kind": "fir", "taps": [0.3, 0.3, 0.2, 0.2], "m0": 2},
@@ -63,7 +63,7 @@ def _enum_scenario(tier: str, index: int) -> dict:
             cur += 1
     splits.append(cur)
     f = ENUM_FILTERS[fi]
-    return {"filter": f, "signal": {"key": "enum%d" % n, "n": n, "style": "extreme" if f["kind"].startswith("cs") else "random",
+    return {"filter": f, "signal": {"key": "enum%d" % n, "n": n, "style": ("extreme" if f["kind"] == "cs_fir" else "burst_then_silence") if f["kind"].startswith("cs") else "random",
                                     "dtype": "int16"}, "splits": splits, "enumerated": True}
 
 
@@ -97,7 +97,7 @@ def gen(rng: random.Random, tier: str, index: int) -> dict:
         f = {"kind": "cs_fir_custom", "taps": [rng.randint(-20000, 32767) for _ in range(nt)], "m0": rng.randint(0, nt - 1), "k": rng.choice([1, 7, 1000, 32767, 52067])}
         mem = nt - 1
     n = weighted(rng, [(rng.randint(1, 12), 2), (rng.randint(12, 200), 4), (rng.randint(200, 5000), 2)])
-    style = weighted(rng, [("random", 4), ("extreme", 3), ("alternating", 2), ("dc", 1)])
+    style = weighted(rng, [("random", 4), ("extreme", 3), ("alternating", 2), ("dc", 1), ("sparse", 2), ("burst_then_silence", 2)])
     dtype = "int16" if kind.startswith("cs") else rng.choice(["int16", "float64", "int16"])
     mode = weighted(rng, [("ones", 2), ("short", 3), ("around_mem", 3), ("mixed", 4), ("two", 2)])
     splits, left = [], n
@@ -159,6 +159,13 @@ def _signal(sg: dict):
         x = np.where(raw % 7 == 0, -x - 1, x).astype(np.int16)
     elif st == "dc":
         x = np.full(n, 32767 if raw[0] >= 0 else -32768, dtype=np.int16)
+    elif st == "sparse":
+        # impulses separated by runs of digital silence (a filter's tail must keep ringing through the zeros)
+        x = np.where(raw % 11 == 0, raw, 0).astype(np.int16)
+    elif st == "burst_then_silence":
+        k = max(1, n // 3)
+        x = raw.copy()
+        x[k:] = 0
     else:
         x = raw
     if sg.get("dtype") == "float64":
@@ -240,6 +247,8 @@ def run(sc: dict) -> RunResult:
         res.probes["block_shorter_than_memory"] += 1
     if sg["style"] in ("extreme", "alternating", "dc"):
         res.probes["extreme_signal"] += 1
+    if sg["style"] in ("sparse", "burst_then_silence"):
+        res.probes["silence_in_signal"] += 1
     if len(splits) >= 8:
         res.probes["many_blocks"] += 1
     feats = dict(family=family, short_block=bool(short_block), single_tap=(family == "fir" and taps == 1), kind=kind)
